@@ -17,6 +17,7 @@ let unit_ms = 40
 let tol = 10 and ok_late = 15 and grey_late = 70 and req_window = 80
 
 type op = ON of int * int * int list | OR of int list | OI of int * bool | OS of bool | OE
+(* ON (peer, off, ids); the script time of op k is optime.(k) *)
 type ent =
   | A of int * int * int | N of int * int * int list * string | P of int * int list * int list
   | R of int * int | Q of int * int * int list | I of int * int * bool | S of int * bool | E of int
@@ -28,8 +29,9 @@ let zz i = z_of_zz (ZA.of_int i)
 let int_of_n x = ZA.to_int (z_of_n x)
 let int_of_zc x = ZA.to_int (zz_of_z x)
 
+let op_time g = match g with _ :: t :: _ -> int_of_string t | _ -> 0
 let parse_ops groups = Array.of_list (List.map (fun g -> match g with
-  | ["N"; _; peer; _; ids] -> ON (int_of_string peer, 0, ids_of ids)
+  | ["N"; _; peer; off; ids] -> ON (int_of_string peer, int_of_string off, ids_of ids)
   | ["R"; _; ids] -> OR (ids_of ids)
   | ["I"; _; id; b] -> OI (int_of_string id, b = "1")
   | ["S"; _; b] -> OS (b = "1")
@@ -49,7 +51,15 @@ let parse_ent tok = match String.split_on_char ':' tok with
 
 let eval inp obs =
   let groups = split_on ";" inp in
-  let hl, ops = (match groups with [h] :: r -> int_of_string h, parse_ops r | _ -> failwith "bad header") in
+  let hl, mb, ops, optime = (match groups with
+    | [h] :: r -> int_of_string h, 99, parse_ops r, Array.of_list (List.map op_time r)
+    | [h; m] :: r -> int_of_string h, int_of_string m, parse_ops r, Array.of_list (List.map op_time r)
+    | _ -> failwith "bad header") in
+  (* the j-th batch of an announcement: mb real ids each *)
+  let rec chunks l = if l = [] then [] else
+    let rec take n l = if n = 0 then [], l else match l with [] -> [], [] | x :: r -> let a, b = take (n - 1) r in x :: a, b in
+    let a, b = take mb l in a :: chunks b in
+  let seen_chunks = Hashtbl.create 8 in
   let late, obs = (match obs with "LATE" :: r -> true, r | _ -> false, obs) in
   let ents = Array.of_list (List.map parse_ent obs) in
   let toks = Array.of_list obs in
@@ -112,7 +122,10 @@ let eval inp obs =
     | S (t, b) -> out.(i) <- toks.(i); if not b then slog.(i) <- [LUnsuspend (zz t)]
     | N (t, k, ints, s) ->
       (match ops.(k) with
-       | ON (peer, _, ids) ->
+       | ON (peer, _, all_ids) ->
+         let j = (try Hashtbl.find seen_chunks k with Not_found -> 0) in
+         Hashtbl.replace seen_chunks k (j + 1);
+         let ids = (try List.nth (chunks all_ids) j with _ -> []) in
          let at = (try Hashtbl.find atimes k with Not_found -> 0) in
          (* has the timer already put its value into the channel?  (matters because Reset does not drain) *)
          (match timer_due !st with
@@ -126,7 +139,7 @@ let eval inp obs =
          let rq = with_scan i t (fun scan ->
            ENotify (nn peer, List.map nn ids, zz at, List.map nn ints, (s = "1"), List.map (fun x -> x) scan)) in
          add_pending i t rq;
-         slog.(i) <- [LNotify (zz t, nn peer, zz at, List.map nn ints)];
+         slog.(i) <- [LNotify (zz t, nn peer, zz at, List.map nn (List.filter (fun x -> List.mem x ids) ints))];
          out.(i) <- if bad then "n:!inconsistent" else toks.(i)
        | _ -> out.(i) <- "n:!not-a-notification")
     | R (t, k) ->
@@ -170,7 +183,7 @@ let eval inp obs =
     | Q (t, peer, ids) ->
       (match List.find_opt (fun (_, te, p, l, m) -> not !m && p = peer && l = ids && te <= t + 1) !pending with
        | Some (j, te, _, _, m) -> m := true; out.(i) <- toks.(i);
-         slog.(j) <- slog.(j) @ [LReq (zz te, nn peer, List.map nn ids)]
+         slog.(j) <- slog.(j) @ [LReq (zz (max t te), nn peer, List.map nn ids)]
        | None -> out.(i) <- Printf.sprintf "q:!unexpected:%d:%s" peer (tok_ids ids);
          slog.(i) <- [LReq (zz t, nn peer, List.map nn ids)])
     | E t ->
@@ -195,8 +208,18 @@ let eval inp obs =
   let log = List.concat (Array.to_list slog) in
   let bound = zz (2 * 8 * unit_ms + unit_ms) in
   let spec_impl = spec_check cfg.c_forget bound (nn hl) log in
+  (* model vs spec: the log the model produces for this script with an ideal runtime *)
+  let fscript = List.concat (Array.to_list (Array.mapi (fun k o ->
+    let t = optime.(k) * unit_ms in
+    match o with
+    | ON (peer, off, ids) -> List.map (fun ch -> (zz t, FNotify (nn peer, List.map nn ch, zz (t - off * unit_ms)))) (chunks ids)
+    | OR ids -> [(zz t, FReceived (List.map nn ids))]
+    | OI (id, b) -> [(zz t, FInterest (nn id, b))]
+    | OS b -> [(zz t, FSuspend b)]
+    | OE -> [(zz t, FEnd)]) ops)) in
+  let spec_model = spec_check cfg.c_forget bound (nn hl) (simulate_fetcher cfg (nat_of_int 200) fscript) in
   { model_obs = (if late then "LATE" :: model_toks else model_toks);
-    spec_ok = Some spec_impl; model_spec_ok = true;
+    spec_ok = Some spec_impl; model_spec_ok = spec_model;
     nontrivial = !nontrivial; indeterminate = !indet; note = "" }
 
 let () = run eval
